@@ -37,8 +37,8 @@ ASSUMPTIONS = [
     "stock recurrent layer itself - exactly, except when activation='tanh' and "
     "recurrent_activation='sigmoid' on LSTM/GRU, where tf_keras switches to "
     "its fused standard_lstm/standard_gru routine (other float32 operation "
-    "order): |diff| <= 1e-5*(1+|y|), measured maximum on the unchanged tree "
-    "is reported by the labels fused_diff:*",
+    "order): |diff| <= 1e-6*(1+|y|); measured on the unchanged tree: <= 1e-7 "
+    "(labels fused_diff:*)",
     "channels_first: when the stock layer's CPU kernel rejects NCHW the "
     "reference is the same stock layer in channels_last on the transposed "
     "input; Conv1D/SeparableConv1D causal padding is only generated with "
@@ -65,7 +65,7 @@ ASSUMPTIONS = [
     "a configuration the stock Keras layer itself cannot run is skipped and "
     "counted (label stock_unsupported)",
 ]
-BUDGET_S = {"quick": 48, "thorough": 840}
+BUDGET_S = {"quick": 42, "thorough": 840}
 REQUIRED_LABELS = {
     "quick": ["canonical", "hyp", "QDense", "QConv1D", "QConv2D",
               "QDepthwiseConv2D", "QSeparableConv1D", "QSeparableConv2D",
@@ -267,7 +267,7 @@ def oracle(ctx, case, tag):
       if R.fused_kernel_possible(case):
         labs.append("rnn_fused_tolerance")
         ok = (yl.shape == yq.shape and bool(np.all(
-            np.abs(yl.astype(np.float64) - yq) <= 1e-5 * (1 + np.abs(yl)))))
+            np.abs(yl.astype(np.float64) - yq) <= 1e-6 * (1 + np.abs(yl)))))
         if yl.shape == yq.shape:
           dmax = float(np.max(np.abs(yl.astype(np.float64) - yq) /
                               (1 + np.abs(yl))))
@@ -576,10 +576,10 @@ def run(ctx):
   # the explored cases are a deterministic function of (seed, workers, number
   # of chunks reached); the wall clock only decides how many chunks run.
   if ctx.quick:
-    plan = [("ff", ff, 0.58, 50), ("rnn", rnn, 0.24, 30), ("pool", pool, 0.18, 40)]
+    plan = [("ff", ff, 0.55, 50), ("rnn", rnn, 0.33, 30), ("pool", pool, 0.12, 40)]
     max_chunks = 40
   else:
-    plan = [("ff", ff, 0.58, 200), ("rnn", rnn, 0.24, 120), ("pool", pool, 0.18, 150)]
+    plan = [("ff", ff, 0.55, 200), ("rnn", rnn, 0.33, 120), ("pool", pool, 0.12, 150)]
     max_chunks = 400
   saved = ctx.budget_s
   t_all = max(0.0, ctx.time_left())
